@@ -24,6 +24,8 @@ type VCheck struct {
 	// SkipKnownC03: mismatches of the input class of the recorded C03 known finding are not
 	// recorded at all (used by checks of other properties that reuse the C03 observation)
 	SkipKnownC03 bool
+	// ScopedOnly: leave out unscoped lookups (the harness keeps a dataset the model does not know)
+	ScopedOnly bool
 }
 
 func (c *VCheck) fail(clause string, what string, detail interface{}) {
@@ -161,6 +163,9 @@ func (c *VCheck) CheckLatest(ids []string) {
 	}
 	// unscoped lookups: merge of per-dataset latest non-deleted versions
 	for _, id := range ids {
+		if c.ScopedOnly {
+			break
+		}
 		c.Checks++
 		e, err := h.W.Store.GetEntity(h.URI(id), nil, true)
 		if err != nil {
